@@ -544,6 +544,8 @@ class ExprMixin(object):
                 elif lb.c == 0:
                     self.oblige(ctx, st, node, False, "ZeroDivisionError", "modulo by literal zero")
             else:
+                if st.entails_ge(la) and st.entails_ge(lb - 1 - la):
+                    return VInt(la), st          # already reduced
                 define(r, [Lin.sym(r), lb - 1 - Lin.sym(r)])
             return VInt(Lin.sym(r)), st
         if isinstance(op, ast.Div):
